@@ -7,6 +7,7 @@
 #include <sys/stat.h>
 #include <dirent.h>
 #include <errno.h>
+#include <sys/resource.h>
 
 struct Op
 {
@@ -202,14 +203,42 @@ static Verdict run_c15(const Case &c)
     ops.push_back(Op::parse(c.get("op" + std::to_string(i))));
   static uint64_t seq = 0;
   std::string base = scratch() + "/c15-" + std::to_string(getpid()) + "-" + std::to_string(seq++);
-  auto quiet = [] {
+  bool tightfd = c.geti("tightfd") != 0;
+  auto quiet = [tightfd] {
     int dn = open("/dev/null", O_WRONLY);
     if (dn >= 0)
     {
       fflush(stdout);
       dup2(dn, 1);
+      close(dn);
+    }
+    if (tightfd)
+    {
+      // the same descriptor limit for the history and for every fresh process: room for six descriptors beyond
+      // those already open (an operation needs input + output + one transient). A descriptor that an
+      // operation fails to give back then changes the result of a later operation within a short history.
+      int hi = 2;
+      if (DIR *d = opendir("/proc/self/fd"))
+      {
+        int self = dirfd(d);
+        while (struct dirent *e = readdir(d))
+        {
+          int fd = atoi(e->d_name);
+          if (e->d_name[0] >= '0' && e->d_name[0] <= '9' && fd != self && fd > hi)
+            hi = fd;
+        }
+        closedir(d);
+      }
+      struct rlimit rl;
+      if (getrlimit(RLIMIT_NOFILE, &rl) == 0)
+      {
+        rl.rlim_cur = (rlim_t)(hi + 1 + 6);
+        setrlimit(RLIMIT_NOFILE, &rl);
+      }
     }
   };
+  if (tightfd)
+    v.classes.push_back("descriptor_limit_tight");
   // ---- the whole history in one process ----
   ChildResult ra = run_in_child([&]() -> bytes {
     quiet();
@@ -397,6 +426,8 @@ static Case gen_c15()
   if (g::coin(60))
     n = (int)g::range(2, 7);
   c.seti("n", n);
+  if (g::coin(30))
+    c.seti("tightfd", 1);
   c.setb("key", g::raw(16));
   std::vector<std::string> kinds; // what each step produces: "file" (enc ok), "plain", "none"
   for (int i = 0; i < n; i++)
